@@ -5,6 +5,7 @@ package main
 import (
 	"fmt"
 	"go/ast"
+	"go/constant"
 	"go/token"
 	"go/types"
 	"regexp"
@@ -35,112 +36,139 @@ func funcValueOf(v ssa.Value) *ssa.Function {
 	return nil
 }
 
-// blockRulesTable reads the blockRules map literal out of the package initialiser.
-func blockRulesTable(p *Program) map[int64]ruleEntry {
-	out := map[int64]ruleEntry{}
-	init := p.CMs.Func("init")
-	if init == nil {
-		return out
-	}
-	eachInstr(init, func(in ssa.Instruction) {
-		mu, ok := in.(*ssa.MapUpdate)
-		if !ok {
-			return
-		}
-		if n := namedOf(mu.Value.Type()); n == nil || n.Obj().Name() != "blockRule" {
-			return
-		}
-		k, ok := constInt(mu.Key)
-		if !ok {
-			return
-		}
-		ld, ok := mu.Value.(*ssa.UnOp)
-		if !ok {
-			return
-		}
-		al, ok := ld.X.(*ssa.Alloc)
-		if !ok {
-			return
-		}
-		e := ruleEntry{pos: mu.Pos()}
-		for _, r := range refsOf(al) {
-			fa, ok := r.(*ssa.FieldAddr)
-			if !ok {
+// The two rule tables are recovered from the typed syntax of their composite literals, so that the representation (map,
+// array or slice with constant keys; function literals or named functions) does not matter. Function literals are
+// mapped to their SSA functions through Function.Syntax().
+
+func pkgVarLiteral(p *Program, name string) *ast.CompositeLit {
+	for _, f := range p.CM.Syntax {
+		for _, d := range f.Decls {
+			gd, ok := d.(*ast.GenDecl)
+			if !ok || gd.Tok != token.VAR {
 				continue
 			}
-			_, f, _ := fieldAddrInfo(fa)
-			for _, rr := range refsOf(fa) {
-				st, ok := rr.(*ssa.Store)
+			for _, sp := range gd.Specs {
+				vs, ok := sp.(*ast.ValueSpec)
 				if !ok {
 					continue
 				}
-				switch f {
-				case "match":
-					e.match = funcValueOf(st.Val)
-				case "onClose":
-					e.onClose = funcValueOf(st.Val)
-				case "canContain":
-					e.canContain = funcValueOf(st.Val)
-				case "acceptsLines":
-					if cv, ok := st.Val.(*ssa.Const); ok && cv.Value != nil {
-						e.acceptsLines = cv.Value.String() == "true"
+				for i, nm := range vs.Names {
+					if nm.Name == name && i < len(vs.Values) {
+						if cl, ok := vs.Values[i].(*ast.CompositeLit); ok {
+							return cl
+						}
 					}
+				}
+			}
+		}
+	}
+	return nil
+}
+
+// ssaFuncOfExpr resolves a function-valued expression of a package-level initialiser to its SSA function.
+func ssaFuncOfExpr(p *Program, e ast.Expr) *ssa.Function {
+	e = ast.Unparen(e)
+	switch x := e.(type) {
+	case *ast.FuncLit:
+		var found *ssa.Function
+		var walk func(f *ssa.Function)
+		walk = func(f *ssa.Function) {
+			if f == nil || found != nil {
+				return
+			}
+			if f.Syntax() == ast.Node(x) {
+				found = f
+				return
+			}
+			for _, a := range f.AnonFuncs {
+				walk(a)
+			}
+		}
+		for _, m := range p.CMs.Members {
+			if f, ok := m.(*ssa.Function); ok {
+				walk(f)
+			}
+		}
+		return found
+	case *ast.Ident:
+		if obj, ok := p.CM.TypesInfo.Uses[x].(*types.Func); ok {
+			return p.CMs.Prog.FuncValue(obj)
+		}
+	}
+	return nil
+}
+
+func constKeyOf(p *Program, e ast.Expr) (int64, bool) {
+	tv, ok := p.CM.TypesInfo.Types[e]
+	if !ok || tv.Value == nil {
+		return 0, false
+	}
+	return constant.Int64Val(constant.ToInt(tv.Value))
+}
+
+// blockRulesTable reads the blockRules literal.
+func blockRulesTable(p *Program) map[int64]ruleEntry {
+	out := map[int64]ruleEntry{}
+	cl := pkgVarLiteral(p, "blockRules")
+	if cl == nil {
+		return out
+	}
+	for _, el := range cl.Elts {
+		kv, ok := el.(*ast.KeyValueExpr)
+		if !ok {
+			continue
+		}
+		k, ok := constKeyOf(p, kv.Key)
+		if !ok {
+			continue
+		}
+		inner, ok := kv.Value.(*ast.CompositeLit)
+		if !ok {
+			continue
+		}
+		e := ruleEntry{pos: kv.Pos()}
+		for _, fe := range inner.Elts {
+			fkv, ok := fe.(*ast.KeyValueExpr)
+			if !ok {
+				continue
+			}
+			id, ok := fkv.Key.(*ast.Ident)
+			if !ok {
+				continue
+			}
+			switch id.Name {
+			case "match":
+				e.match = ssaFuncOfExpr(p, fkv.Value)
+			case "onClose":
+				e.onClose = ssaFuncOfExpr(p, fkv.Value)
+			case "canContain":
+				e.canContain = ssaFuncOfExpr(p, fkv.Value)
+			case "acceptsLines":
+				if tv, ok := p.CM.TypesInfo.Types[fkv.Value]; ok && tv.Value != nil && tv.Value.Kind() == constant.Bool {
+					e.acceptsLines = constant.BoolVal(tv.Value)
 				}
 			}
 		}
 		out[k] = e
-	})
+	}
 	return out
 }
 
-// blockStartFuncs reads the blockStarts slice literal out of the package initialiser.
+// blockStartFuncs reads the blockStarts literal (in order).
 func blockStartFuncs(p *Program) []*ssa.Function {
-	init := p.CMs.Func("init")
 	var out []*ssa.Function
-	if init == nil {
+	cl := pkgVarLiteral(p, "blockStarts")
+	if cl == nil {
 		return out
 	}
-	eachInstr(init, func(in ssa.Instruction) {
-		st, ok := in.(*ssa.Store)
-		if !ok {
-			return
+	for _, el := range cl.Elts {
+		if kv, ok := el.(*ast.KeyValueExpr); ok {
+			el = kv.Value
 		}
-		g, ok := st.Addr.(*ssa.Global)
-		if !ok || g.Name() != "blockStarts" {
-			return
+		if f := ssaFuncOfExpr(p, el); f != nil {
+			out = append(out, f)
 		}
-		sl, ok := st.Val.(*ssa.Slice)
-		if !ok {
-			return
-		}
-		al, ok := sl.X.(*ssa.Alloc)
-		if !ok {
-			return
-		}
-		type ent struct {
-			i int64
-			f *ssa.Function
-		}
-		var es []ent
-		for _, r := range refsOf(al) {
-			ia, ok := r.(*ssa.IndexAddr)
-			if !ok {
-				continue
-			}
-			idx, _ := constInt(ia.Index)
-			for _, rr := range refsOf(ia) {
-				if s2, ok := rr.(*ssa.Store); ok {
-					if f := funcValueOf(s2.Val); f != nil {
-						es = append(es, ent{idx, f})
-					}
-				}
-			}
-		}
-		sort.Slice(es, func(i, j int) bool { return es[i].i < es[j].i })
-		for _, e := range es {
-			out = append(out, e.f)
-		}
-	})
+	}
 	return out
 }
 
